@@ -1,8 +1,9 @@
 (* Dispatcher for C08: run the program semantics of Model/PType.v over the observed transition
    function on an encoded case.
-     1 :: wcode :: tilted :: n :: (kind :: arg) * n      kind 0 = MulType p, 1 = MulClass k,
-                                                          2 = Propagate m
-       -> 0 :: n :: outcomes (Yields s -> 0 w t ; Raises e k -> 1 e w t)
+     1 :: wcode :: ccode :: n :: (kind :: a :: b) * n
+         kind 0 = MulType (ptype a) (clip b), 1 = MulClass (class a) (clip b),
+         2 = Propagate (method a), 3 = Fresh (St (wtype a) (content b))
+       -> 0 :: n :: outcomes (Yields s -> 0 w c ; Raises e k -> 1 e w c)
      2 :: k  -> 0 :: pcode (observed_class_ptype k)
    The same program over the [documented] machine: first integer 3 instead of 1.
      4 :: a :: b -> 0 :: a * b + (- a)    codec self-test (also keeps Z.add/Z.mul/Z.opp, which the
@@ -12,30 +13,35 @@ Require Import ExtrOcamlBasic.
 
 Definition emalformed : list Z := [2].
 
-Definition pop (kind arg : Z) : option (op cls) :=
+Definition pop (kind a b : Z) : option (op cls) :=
   match kind with
-  | 0 => option_map MulType (ptype_of_code arg)
-  | 1 => option_map MulClass (cls_of_code arg)
-  | 2 => option_map Propagate (method_of_code arg)
+  | 0 => match ptype_of_code a, bool_of_code b with
+         | Some p, Some c => Some (MulType p c) | _, _ => None end
+  | 1 => match cls_of_code a, bool_of_code b with
+         | Some k, Some c => Some (MulClass k c) | _, _ => None end
+  | 2 => match method_of_code a, b with
+         | Some m, 0 => Some (Propagate m) | _, _ => None end
+  | 3 => match wtype_of_code a, content_of_code b with
+         | Some w, Some c => Some (Fresh (St w c)) | _, _ => None end
   | _ => None
   end.
 
 Fixpoint pops (n : nat) (l : list Z) : option (list (op cls)) :=
   match n, l with
   | O, [] => Some []
-  | S k, kind :: arg :: rest =>
-      match pop kind arg, pops k rest with
+  | S k, kind :: a :: b :: rest =>
+      match pop kind a b, pops k rest with
       | Some o, Some os => Some (o :: os)
       | _, _ => None
       end
   | _, _ => None
   end.
 
-Definition run_on (M : machine cls) (w t n : Z) (rest : list Z) : list Z :=
+Definition run_on (M : machine cls) (w c n : Z) (rest : list Z) : list Z :=
   if n <? 0 then emalformed else
-  match wtype_of_code w, bool_of_code t, pops (Z.to_nat n) rest with
-  | Some w', Some t', Some ops =>
-      let tr := run_program M (St w' t') ops in
+  match wtype_of_code w, content_of_code c, pops (Z.to_nat n) rest with
+  | Some w', Some c', Some ops =>
+      let tr := run_program M (St w' c') ops in
       0 :: Z.of_nat (length tr) :: flat_map eoutcome tr
   | _, _, _ => emalformed
   end.
